@@ -24,8 +24,8 @@ FUNCS = ('_reparse_raw_base', '_reparse_raw_stmtlike', '_reparse_raw')
 SCRATCH = {'copy_root', 'copy', 'copya', 'copy_lines', 'a', 'copy_parent', 'copy_parenta'}          # `a` is only used as loop variable over walk(copy.a) / the copy path
 LIVE = {'self', 'root', 'stmtlike', 'stmtlikea', 'parent', 'parenta'}
 
-# module-level helpers that are called as pure predicates: checked to be pure here (only reads: no attribute / subscript stores, no calls but len / getattr)
-PURE_HELPERS = {'_is_header_scaffold'}
+# module-level helpers that are called as pure predicates: checked to be pure here (only reads: no attribute / subscript stores, no calls but len / getattr / str.encode() / each other)
+PURE_HELPERS = {'_is_header_scaffold', '_is_scaffold_pass'}      # the second one indexes the scratch copy's lines with the line number of a node parsed from exactly those lines
 PURE_CALLS = {'FST', 'bistr', 'len', 'getattr', 'isinstance', 'walk', 'parent_stmtlike', 'is_elif', '_loc_block_header_end', '_get_block_indent', 'c2b', 'strip', 'lstrip',
               'startswith', 'index', 'next', 'bool', 'child_path', 'Pass', '_code_as_lines', 'child_from_path', 'join', 'compare_asts', 'zip', 'parents', 'endswith',
               'next_frag'} | PURE_HELPERS        # next_frag: common.py text scan over the lines (regex matches, no stores): read-only
@@ -290,7 +290,8 @@ def generate() -> list[str]:
         if h not in defs:
             raise TranslationError(f'fst_raw.py: pure helper {h} not found')
         for n in ast.walk(defs[h]):
-            if isinstance(n, ast.Call) and not (isinstance(n.func, ast.Name) and n.func.id in ('len', 'getattr')):
+            if isinstance(n, ast.Call) and not (isinstance(n.func, ast.Name) and (n.func.id in ('len', 'getattr') or n.func.id in PURE_HELPERS)) \
+                    and not (isinstance(n.func, ast.Attribute) and n.func.attr == 'encode' and not n.args and not n.keywords):
                 raise TranslationError(f'line {n.lineno}: helper {h} assumed pure calls {ast.unparse(n.func)}')
             if isinstance(n, (ast.Assign, ast.AugAssign, ast.AnnAssign, ast.Delete)):
                 raise TranslationError(f'line {n.lineno}: helper {h} assumed pure has an assignment statement')
